@@ -221,33 +221,33 @@ class ProgSet:
 
     def build(self, extra_crates=None):
         """returns (ws, rejected {prog id: msg}, machinery_errors)"""
-        crates, linemap = self.render()
-        if extra_crates:
-            crates.update(extra_crates)
-        ws = write_workspace(self.pid, crates)
-        errors, seen, rc, err = check_json(ws)
         rejected, mach = {}, []
-        for tgt, errs in errors.items():
-            if not tgt.startswith(self.prefix + "_"):
-                continue
-            for e in errs:
-                hit = False
-                for (f, line) in e["spans"]:
-                    if not f.endswith(f"{tgt}/src/main.rs"):
-                        continue  # a span inside konst's own sources: only the expansion site in the generated file counts
-                    for (name, pid), (a, b) in linemap.items():
-                        if name == tgt and a <= line <= b:
-                            rejected.setdefault(pid, e["msg"] + " | " + e["rendered"][:400])
-                            hit = True
-                if not hit and e["msg"] and "aborting" not in e["msg"] and "could not compile" not in e["msg"]:
-                    mach.append(f"unattributed compiler error in {tgt}: {e['msg'][:300]} {e['spans'][:3]}")
-        if mach:
-            return ws, rejected, mach
-        if rejected:
+        # iterated: errors of an early compiler phase (macro expansion) hide later ones (type checking, const evaluation)
+        for _round in range(6):
             crates, linemap = self.render(exclude=set(rejected))
             if extra_crates:
                 crates.update(extra_crates)
             ws = write_workspace(self.pid, crates)
+            errors, seen, rc, err = check_json(ws)
+            before = len(rejected)
+            for tgt, errs in errors.items():
+                if not tgt.startswith(self.prefix + "_"):
+                    continue
+                for e in errs:
+                    hit = False
+                    for (f, line) in e["spans"]:
+                        if not f.endswith(f"{tgt}/src/main.rs"):
+                            continue  # a span inside konst's own sources: only the expansion site in the generated file counts
+                        for (name, pid), (a, b) in linemap.items():
+                            if name == tgt and a <= line <= b:
+                                rejected.setdefault(pid, e["msg"] + " | " + e["rendered"][:400])
+                                hit = True
+                    if not hit and e["msg"] and "aborting" not in e["msg"] and "could not compile" not in e["msg"]:
+                        mach.append(f"unattributed compiler error in {tgt}: {e['msg'][:300]} {e['spans'][:3]}")
+            if mach:
+                return ws, rejected, mach
+            if len(rejected) == before:
+                break
         rcode, out, errtxt = cargo(ws, ["build", "-q"] + sum([["-p", c] for c in sorted(crates) if c.startswith(self.prefix + "_")], []))
         if rcode != 0:
             mach.append(f"generated {self.pid} workspace does not build after removing rejected programs: " + errtxt[-2000:])
